@@ -231,3 +231,69 @@ def nontrivial(r, obs, events):
 def describe(p):
     return ["base=" + p["base"], "depth=%d" % len(p["layers"]), "wait=%s" % p["wait"], "racers=%d" % p["racers"]] + \
            ["has_" + k for k in sorted(set(p["layers"]))]
+
+
+def extra(stats, tier, seed):
+    """API-level part for the two executors the stack family does not build: AsyncioExecutor (it hands out asyncio futures, so it cannot sit under
+    another layer) and the customizable thread pool itself: submit after shutdown raises the message, shutdown is idempotent, propagates exactly once
+    with the same arguments."""
+    import asyncio
+    import drive
+    from more_executors import Executors
+    from more_executors._impl.asyncio import AsyncioExecutor
+    known_patterns = set(k["pattern"] for k in drive.load_known(PROP))
+
+    def viol(what, pattern, detail=None):
+        v = {"what": what, "pattern": pattern, "detail": detail, "case": {"params": {}, "chooser": "none", "cseed": 0, "origin": "api"}}
+        if pattern in known_patterns:
+            stats.known.setdefault(pattern, v)
+        else:
+            stats.violations.append(v)
+
+    class Rec(object):
+        def __init__(self):
+            self.calls = []
+            self.subs = 0
+
+        def submit(self, fn, *a, **k):
+            from concurrent.futures import Future
+            self.subs += 1
+            f = Future()
+            f.set_result(fn(*a, **k))
+            return f
+
+        def shutdown(self, *a, **k):
+            self.calls.append((a, tuple(sorted(k.items()))))
+    with det.atomic():
+        loop = asyncio.new_event_loop()
+        try:
+            for (args, kw) in [((), {}), ((True,), {}), ((False,), {}), ((False,), {"cancel_futures": True}), ((), {"wait": False}), ((True,), {"cancel_futures": False})]:
+                rec = Rec()
+                ex = AsyncioExecutor(rec, loop=loop)
+                f = ex.submit(lambda: 7)
+                stats.add([[11, 1, len(args), len(kw)]], True, None, ["api:asyncio"])
+                if not isinstance(f, asyncio.Future) or rec.subs != 1:
+                    viol("AsyncioExecutor.submit did not hand one callable to the delegate / return an asyncio future", "shutdown:asyncio-submit")
+                ex.shutdown(*args, **kw)
+                want_wait = args[0] if args else kw.get("wait", True)
+                want_kw = tuple(sorted((k, v) for k, v in kw.items() if k != "wait"))
+                if len(rec.calls) != 1:
+                    viol("AsyncioExecutor.shutdown%r %r reached the delegate %d times" % (args, kw, len(rec.calls)), "shutdown:propagation-count", "asyncio")
+                else:
+                    a, k = rec.calls[0]
+                    got_wait = a[0] if a else dict(k).get("wait", True)
+                    if got_wait != want_wait or tuple((x, y) for x, y in k if x != "wait") != want_kw:
+                        viol("AsyncioExecutor.shutdown%r %r reached the delegate as shutdown%r %r" % (args, kw, a, k), "shutdown:propagation-args", "asyncio")
+                ex.shutdown(*args, **kw)
+                if len(rec.calls) != 1:
+                    viol("a second AsyncioExecutor.shutdown() propagated again", "shutdown:not-idempotent", "asyncio")
+                try:
+                    ex.submit(lambda: 8)
+                    viol("AsyncioExecutor.submit after shutdown returned", "shutdown:submit-after:submit", "asyncio")
+                except RuntimeError as e:
+                    if str(e) != MSG:
+                        viol("AsyncioExecutor.submit after shutdown raised %r" % str(e), "shutdown:submit-after:submit", "asyncio")
+                if rec.subs != 1:
+                    viol("AsyncioExecutor.submit after shutdown reached the delegate", "shutdown:submit-after:submit", "asyncio")
+        finally:
+            loop.close()
